@@ -10,7 +10,7 @@
 (V) every recorded execution (allocator events per API call + return code + "caller objects unchanged") is
     validated by TraceLifecycle, which reuses Lifecycle's actions and re-checks the contract invariants.
 """
-import json, os, re, subprocess, sys, hashlib, concurrent.futures
+import json, os, re, subprocess, sys, time, hashlib, concurrent.futures
 from lib import tlc, build, tracev
 from lib.ctx import MachineryError
 from checks.c11 import plans_from_tlc
@@ -23,6 +23,7 @@ BUGS = {"no_next_end": "lzma_next_coder_init does not free the coder of another 
         "leak_on_fail": "temporaries are not freed when a function on caller-owned objects fails",
         "double_end": "lzma_end leaves strm->internal dangling"}
 PAR = 4
+STALL = 25           # seconds without a completed execution before the driver is declared hung
 
 
 def crash_key(log, scn_id):
@@ -30,6 +31,10 @@ def crash_key(log, scn_id):
     m = re.search(r"SUMMARY: \w+Sanitizer: (\S+) \S*?([\w.]+):\d+ in (\w+)", log)
     if m:
         return "crash:%s:%s" % (m.group(1), m.group(3))
+    m = re.search(r"AddressSanitizer: (SEGV|BUS|FPE|stack-overflow)", log)
+    if m:      # wild jump / NULL function pointer: name the innermost library frame
+        fr = re.search(r"#\d+ 0x[0-9a-f]+ in (\w+) \S*/src/(?:liblzma|common|xz)/", log)
+        return "crash:%s:%s" % (m.group(1), fr.group(1) if fr else "unknown")
     m = re.search(r"([\w.]+\.[ch]):(\d+):\d+: runtime error: ([\w -]{1,40})", log)
     if m:
         return "crash:ubsan:%s:%s" % (m.group(1), m.group(3).strip().replace(" ", "-"))
@@ -66,12 +71,24 @@ def run_batch(ctx, so, scns, tag, max_single, n_subsets, timeout):
         out = os.path.join(ctx.workdir, "out.%s.%d.ndjson" % (tag, part))
         json.dump(dict(so=so, scenarios=todo, seed=ctx.seed, max_single=max_single, n_subsets=n_subsets), open(job, "w"))
         hang = False
-        try:
-            p = subprocess.run([sys.executable, "-m", "harness.pydrv.c10drv", job, out], cwd=HERE, env=build.asan_env(),
-                               stdout=subprocess.PIPE, stderr=subprocess.STDOUT, text=True, errors="replace", timeout=timeout)
-            rc, log = p.returncode, p.stdout
-        except subprocess.TimeoutExpired as e:
-            rc, log, hang = -9, (e.stdout or b"").decode(errors="replace") if isinstance(e.stdout, bytes) else (e.stdout or ""), True
+        logp = out + ".log"
+        with open(logp, "w") as lf:
+            p = subprocess.Popen([sys.executable, "-m", "harness.pydrv.c10drv", job, out], cwd=HERE, env=build.asan_env(),
+                                 stdout=lf, stderr=subprocess.STDOUT)
+            # watchdog: the driver appends one line per execution; no new line for `stall` seconds = a call never returned
+            t0 = last = time.time(); size = -1
+            while p.poll() is None:
+                time.sleep(0.25)
+                sz = os.path.getsize(out) if os.path.exists(out) else 0
+                now = time.time()
+                if sz != size:
+                    size, last = sz, now
+                if now - last > STALL or now - t0 > timeout:
+                    hang = True
+                    p.kill(); p.wait()
+                    break
+            rc = -9 if hang else p.returncode
+        log = open(logp, errors="replace").read()
         started = None; done = set()
         cur = []
         if os.path.exists(out):
@@ -92,8 +109,12 @@ def run_batch(ctx, so, scns, tag, max_single, n_subsets, timeout):
             raise MachineryError("c10 driver failed outside a scenario (rc=%s):\n%s" % (rc, log[-3000:]))
         sanitizer = ("Sanitizer" in log) or ("runtime error" in log) or rc in (-6, -11, -7, -4, 134, 139)
         if hang:
-            ctx.violation("hang:" + str(started), "scenario did not finish within %ds (after %d completed runs)" % (timeout, len(cur)),
-                          dict(kind="scenario", scenario=[s for s in todo if s["id"] == started]))
+            sc = [s for s in todo if s["id"] == started]
+            kinds = sorted({o["k"] for s in sc for o in s["ops"] if o["op"] == "Init"})
+            ninit = sum(1 for s in sc for o in s["ops"] if o["op"] == "Init")
+            _Dedup(ctx, SEEN).violation("hang:%s%s" % ("+".join(kinds) or "objects", ":reinit" if ninit > 1 else ""),
+                                        "an API call did not return within %d s in scenario %s (after %d completed executions of it)"
+                                        % (STALL, started, len(cur)), dict(kind="scenario", scenario=sc, completed_runs=len(cur)))
         elif sanitizer:
             _Dedup(ctx, SEEN).violation(crash_key(log, started), "the library crashed / a sanitizer aborted while replaying the scenario "
                           "(after %d completed runs of it):\n%s" % (len(cur), log[-2500:]),
@@ -184,6 +205,19 @@ def run(ctx):
         gf = tlc.run("GenLifecycle", cfg=cfg, workers=1, timeout=600)
         ctx.add_tlc("GenLifecycle(%s)" % name, gf, exhaustive=True)
         fam[name] = [p for p in plans_from_tlc(gf.out) if len(p) >= 3]
+    # reuse family: one handle used, aborted (faults), re-initialised with the same constructor, used again;
+    # lzma_filters_update followed by coding (the handle must stay usable after a failed update)
+    gr = tlc.run("GenLifecycle", cfg="GenLifecycleReuse.cfg", workers=1, timeout=600)
+    ctx.add_tlc("GenLifecycle(reuse)", gr, exhaustive=True)
+    def reuse_class(p):
+        ops = [o["op"] for o in p]
+        if "End" in ops:
+            return False
+        return any(o == "Init" for o in ops[1:]) or \
+            any(ops[i] == "Update" and any(x in ("CodeSome", "CodeAll") for x in ops[i + 1:]) for i in range(len(ops)))
+    fam["reuse"] = [p for p in plans_from_tlc(gr.out) if reuse_class(p)]
+    if len(fam["reuse"]) < 300:
+        raise MachineryError("reuse family produced only %d scenarios" % len(fam["reuse"]))
     simh = tlc.run("GenLifecycle", cfg="GenLifecycleHnd.cfg", workers=1, timeout=600, simulate=25 if quick else 1500, depth=4,
                    seed=ctx.seed + 1)
     if simh.error:
@@ -198,11 +232,15 @@ def run(ctx):
         hrest = [p for p in rest if p[0]["op"] == "Init"]
         orest = [p for p in rest if p[0]["op"] != "Init"]
         idx_end = [p for p in fam["idx"] if p[-1]["op"] in ("IndexCat", "IndexDup")]
-        chosen = one + must + ctx.rng.sample(hrest, 80) + ctx.rng.sample(orest, 50) + deep[:80] \
-            + ctx.rng.sample(idx_end, 60) + ctx.rng.sample(fam["flt"], 30)
+        ru = fam["reuse"]
+        ru_short = [p for p in ru if len(p) <= 3]
+        ru_again = [p for p in ru if len(p) == 4 and [o["op"][:4] for o in p] == ["Init", "Code", "Init", "Code"]]
+        ru_rest = [p for p in ru if len(p) == 4 and p not in ru_again]
+        chosen = one + must + ctx.rng.sample(hrest, 40) + ctx.rng.sample(orest, 40) + deep[:40] \
+            + ctx.rng.sample(idx_end, 50) + ctx.rng.sample(fam["flt"], 25) + ru_short + ru_again + ctx.rng.sample(ru_rest, 30)
         max_single, n_subsets = 60, 2
     else:
-        chosen = one + two + deep + fam["idx"] + fam["flt"]
+        chosen = one + two + deep + fam["idx"] + fam["flt"] + fam["reuse"]
         max_single, n_subsets = 150, 6
     # always present (both plans are in the TLC-generated set; here the decoded Index is forced to have no Records)
     chosen = chosen + [[dict(op="IndexBufferDecode", tgt="I1", empty=True), dict(op="IndexAppend", tgt="I1")],
